@@ -485,3 +485,20 @@ def instance(name: str, *args):
     """An instance of a law at the given z3 terms (for Clause.lemmas)."""
     l = next(x for x in LAWS if x.name == name)
     return l.body(Z3Backend(), *args)
+
+
+def lean_proved() -> set[str]:
+    """Law names whose Lean theorem compiled in the last run of /verif/lean/check.sh (MANIFEST.setup_cmd writes
+    lean/build/PROVED.txt; the thorough tier re-runs the script)."""
+    import os
+
+    p = os.path.join(os.path.dirname(os.path.dirname(os.path.abspath(__file__))), "lean", "build", "PROVED.txt")
+    if not os.path.exists(p):
+        return set()
+    return {ln.split()[1] for ln in open(p) if ln.startswith("PROVED ")}
+
+
+def law_status_summary() -> dict:
+    proved = lean_proved()
+    return {"lean_proved": sorted(l.name for l in LAWS if l.name in proved),
+            "assumed_bounded_checked_only": sorted(l.name for l in LAWS if l.name not in proved)}
